@@ -362,6 +362,10 @@ func runCase(c *harness.Ctx, id string, fc fcase, atoms []atom) {
 			returned = false
 		}
 		took := time.Since(start)
+		if returned && harness.MaxStallSince(start) > 150*time.Millisecond {
+			c.Count("submissions_not_judged_process_stalled", 1) // starved of CPU: the measured times say nothing
+			continue
+		}
 		detail := map[string]any{"case": fc, "submission_no": rep, "returned_error": fmt.Sprint(err), "took_ms": took.Milliseconds(), "timeout_ms": timeout.Milliseconds()}
 		if !returned {
 			c.Violate("submission-never-returns:"+fc.Kind, "submission did not return within 10 s (timeout 0.6 s)", id, detail)
@@ -450,6 +454,7 @@ func runCase(c *harness.Ctx, id string, fc fcase, atoms []atom) {
 }
 
 func run(c *harness.Ctx) {
+	harness.StartStallMonitor()
 	var cases []struct {
 		id    string
 		fc    fcase
